@@ -43,6 +43,20 @@ def InF1 (q : Query) : Bool :=
       rv.eraseDups.length == rv.length
     | _ => true
 
+/-- a projection of the relational core: plain items (no aggregate), no ORDER BY; DISTINCT, SKIP, LIMIT are free -/
+def coreProj (p : Proj) : Bool := !p.items.any Spec.isAgg && p.orderBy.isEmpty
+
+/-- the MATCH-free relational core of F1: any sequence of UNWIND, WHERE (not as the first clause — the parser never
+    produces that) and WITH, closed by RETURN.  The flag says whether a clause precedes. -/
+def coreClauses : Bool → Query → Bool
+  | _, [.return_ p] => coreProj p
+  | _, .unwind _ _ :: q => coreClauses true q
+  | _, .with_ p none :: q => coreProj p && coreClauses true q
+  | true, .where_ _ :: q => coreClauses true q
+  | _, _ => false
+
+def InCore (q : Query) : Bool := coreClauses false q
+
 /-- none of the known findings of C11 is triggered by (graph, query) -/
 def NoKnownTrigger (A : Algebra) (env : Env) (q : Query) : Bool := (Findings.triggers A env q).isEmpty
 
